@@ -1498,13 +1498,36 @@ void SPxMainSM<R>::AggregationPS::execute(VectorBase<R>& x, VectorBase<R>& y, Ve
    r[m_j] = 0.0;
 
    // basis:
-   if(((cStatus[active_idx] == SPxSolverBase<R>::ON_UPPER
+   // x_k is nonbasic in the reduced LP, possibly at a bound that was derived from a bound of x_j, or fixed by such a bound so
+   // that its reduced cost can have either sign.  It stays nonbasic if it sits at one of its own bounds and the reduced cost
+   // has the sign for that bound; otherwise x_k becomes basic and x_j nonbasic at the bound that holds x_k in place.
+   bool swapBasis = false;
+
+   if(cStatus[active_idx] == SPxSolverBase<R>::ON_UPPER || cStatus[active_idx] == SPxSolverBase<R>::ON_LOWER
          || cStatus[active_idx] == SPxSolverBase<R>::FIXED)
-         && NE(x[active_idx], m_oldupper, this->feastol())) ||
-         ((cStatus[active_idx] == SPxSolverBase<R>::ON_LOWER
-           || cStatus[active_idx] == SPxSolverBase<R>::FIXED)
-          && NE(x[active_idx], m_oldlower, this->feastol())))
    {
+      bool atOldLower = EQ(x[active_idx], m_oldlower, this->feastol());
+      bool atOldUpper = EQ(x[active_idx], m_oldupper, this->feastol());
+      bool atBound_j = EQ(x[m_j], m_upper, this->feastol()) || EQ(x[m_j], m_lower, this->feastol());
+
+      if(atOldLower && atOldUpper)
+         cStatus[active_idx] = SPxSolverBase<R>::FIXED;
+      else if(atOldLower && (r[active_idx] >= 0.0 || !atBound_j))
+         cStatus[active_idx] = SPxSolverBase<R>::ON_LOWER;
+      else if(atOldUpper && (r[active_idx] <= 0.0 || !atBound_j))
+         cStatus[active_idx] = SPxSolverBase<R>::ON_UPPER;
+      else
+         swapBasis = true;
+   }
+
+   if(swapBasis)
+   {
+      // the reduced cost of x_k has to vanish instead of the one of x_j: this changes the dual of the aggregated row by
+      // r_k / a_ik and gives x_j the reduced cost -(a_ij / a_ik) * r_k
+      R aik = m_row[active_idx];
+      y[m_i] += r[active_idx] / aik;
+      r[m_j] = -(aij / aik) * r[active_idx];
+
       cStatus[active_idx] = SPxSolverBase<R>::BASIC;
       r[active_idx] = 0.0;
       assert(NE(m_upper, m_lower, this->epsilon()));
